@@ -134,12 +134,16 @@ theorem fixed_import (n : Nat) (chunks : List Chunk) (cellss : List (List Bytes)
 theorem bool_table_complete (val : Bytes) : boolLit val = boolValue val := boolLit_eq_boolValue val
 
 /-- `numeric_bool_transform` on any chunk: every cell is blank-trimmed (no read outside the cell), looked up, and the
-    validation mode decides between value, invalid value + false flag, and raising -/
-theorem bool_transform_spec (c : Chunk) (mode : Mode) (invalid : Bool) (cells : List Bytes) (h : Encodes c cells) :
-    boolTransform c mode invalid =
+    validation mode decides between value, invalid value + false flag, and raising.
+    `capE = len(elements)`, `capV = len(validity)` are the sizes of the two result arrays the caller hands in; the hypotheses
+    `written_row_count ≤ capE, capV` are what the only caller establishes (`NumericImporter.import_part`:
+    `elements = np.zeros(written_row_count, …)`, `validity = np.ones(written_row_count, …)`, field_importers.py) -/
+theorem bool_transform_spec (c : Chunk) (mode : Mode) (invalid : Bool) (capE capV : Nat) (cells : List Bytes)
+    (h : Encodes c cells) (hE : c.rows ≤ capE) (hV : c.rows ≤ capV) :
+    boolTransform c mode invalid capE capV =
       match numericColumn mode invalid (cells.map boolClass) with
       | some r => .ok r
-      | none => .error (.other "Exception") := boolTransform_spec c mode invalid cells h
+      | none => .error (.other "Exception") := boolTransform_spec c mode invalid capE capV cells h hE hV
 
 theorem numericColumn_append {V} (mode : Mode) (inv : V) (a b : List (CellClass V)) :
     numericColumn mode inv (a ++ b) =
@@ -164,7 +168,7 @@ theorem bool_import (mode : Mode) (invalid : Bool) (chunks : List Chunk) (cellss
   induction h generalizing st with
   | nil => simp [boolImport, numericColumn]
   | @cons c cells cs cellss hc _ ih =>
-    rw [boolImport, bool_transform_spec c mode invalid cells hc]
+    rw [boolImport, bool_transform_spec c mode invalid c.rows c.rows cells hc (Nat.le_refl _) (Nat.le_refl _)]
     simp only [List.flatten_cons, List.map_append, numericColumn_append]
     cases h1 : numericColumn mode invalid (cells.map boolClass) with
     | none => simp
@@ -467,11 +471,17 @@ theorem companions_aligned_time (f : Bytes → Except Err (Int × Bytes × Bool)
 /-- a chunk as the reader lays it out: the column starts at byte 2 of `column_vals`, three rows `ab`, ``, `abc`, one stale
     index entry, spare capacity -/
 def demoChunk : Chunk :=
-  { inds := [0, 2, 2, 5, 9], vals := [88, 88, 97, 98, 97, 98, 99, 88, 88], off := 2, cap := 7, rows := 3 }
+  { inds := [0, 2, 2, 5, 9], vals := [88, 88, 97, 98, 97, 98, 99, 88, 88], off := 2, cap := 7, rows := 3, col := 1, ncols := 2 }
 
 theorem demo_encodes : Encodes demoChunk [[97, 98], [], [97, 98, 99]] := by
-  refine ⟨rfl, 0, ?_, by decide⟩
+  refine ⟨rfl, ⟨0, ?_, by decide⟩, by decide⟩
   simp [EncFrom, demoChunk, slice]
+
+/-- the column-subscript check is real: `col_idx = number of columns` passes `column_offsets[col_idx]` (one entry more) and
+    fails at the first dimension of `column_inds`; beyond that already `column_offsets[col_idx]` fails -/
+example : fixedStringTransform { demoChunk with col := 2 } 2 = .error (.oob "column_inds[col_idx,i]") ∧
+    fixedStringTransform { demoChunk with col := 3 } 2 = .error (.oob "column_offsets[col_idx]") ∧
+    fixedStringTransform { demoChunk with col := 2, rows := 0 } 2 = .ok [] := ⟨by rfl, by rfl, by rfl⟩
 
 def demoCats : List (Bytes × Int) := [([97, 98, 99], 3), ([97], 1), ([97, 98], 2)]
 
@@ -490,7 +500,10 @@ example : ValidCivil 2020 6 15 19 45 39 := ⟨by decide, by decide, by decide, b
 -- b"2020-06-15 19:45:39+01:00" is 18:45:39 UTC = 1592246739 s
 example : parseTimestamp (L19 2020 6 15 19 45 39 ++ offText false 1 0) = .ok 1592246739000000 := by rfl
 example : boolLit [84, 114, 85, 101] = some 1 ∧ boolLit [110, 111, 112, 101] = none := by decide
-example : boolTransform demoChunk .relaxed true = .ok ([true, true, true], [false, false, false]) := by
-  rw [bool_transform_spec _ _ _ _ demo_encodes]; rfl
+example : boolTransform demoChunk .relaxed true 3 3 = .ok ([true, true, true], [false, false, false]) := by
+  rw [bool_transform_spec _ _ _ _ _ _ demo_encodes (by decide) (by decide)]; rfl
+/-- the capacity checks are real: a result array shorter than the row count is the model's out-of-bounds write -/
+example : boolTransform demoChunk .relaxed true 2 3 = .error (.oob "elements[row_idx]") ∧
+    boolTransform demoChunk .relaxed true 3 2 = .error (.oob "validity[row_idx]") := ⟨by rfl, by rfl⟩
 
 end Exetera.Props.C06
